@@ -4,13 +4,15 @@
 DIR=$(dirname "$(readlink -f "$0")")
 SEEDS=${SEEDS:-"1 2 3"}
 PROPS=${PROPS:-"C01 C02 C03 C04 C05 C06 C07 C08 C09 C10 C11 C12 C13 C14 C15 C16 C17 C18 C19 C20"}
-# (the binary is rebuilt from /repo's working tree first: the last build may have been made
+# (unless HQSIM_BIN names a binary to test, the binary is rebuilt from /repo's working tree first: the last build may have been made
 # against a tree with a seeded change applied)
+if [ -z "${HQSIM_BIN:-}" ]; then
 (cd "$DIR/hqsim" && CARGO_NET_OFFLINE=true CARGO_TARGET_DIR="$DIR/target" cargo build --profile sim --offline >"$DIR/.build.log" 2>&1) || { echo "build failed (see $DIR/.build.log)"; exit 2; }
+fi
 OUT=$(mktemp -d /tmp/hqsim-seedtest.XXXXXX)
 cp "$DIR/known_findings.txt" "$OUT/"
 # private copy of the binary: checks of seeded changes rebuild $DIR/target/sim/hqsim in place
-cp "$DIR/target/sim/hqsim" "$OUT/hqsim"
+cp "${HQSIM_BIN:-$DIR/target/sim/hqsim}" "$OUT/hqsim"
 fail=0
 for s in $SEEDS; do
   for p in $PROPS; do
